@@ -227,3 +227,68 @@ fn sexpr_roundtrip() {
     let s2 = Spec::from_text(&t).unwrap();
     assert_eq!(s, s2);
 }
+
+#[test]
+fn eoi_that_is_not_the_last_factor() {
+    // 'a' = 2, 'a' $ 'b' = 1: at the end of the input the second rule is dead, the first one wins
+    let s = single(vec![
+        rule(Re::Chr('a'), None, Action::Simple(2)),
+        rule(Re::cat(Re::Chr('a'), Re::cat(Re::Eoi, Re::Chr('b'))), None, Action::Simple(1)),
+    ]);
+    assert_eq!(lex(&s, "a"), vec!["T2@0..1", "None"]);
+    assert_eq!(lex(&s, "aa"), vec!["T2@0..1", "T2@1..2", "None"]);
+    // word ('\n' | $) ' '*  -- the `$` alternative is followed by a nullable factor
+    let eol = Re::alt(Re::Chr('\n'), Re::Eoi);
+    let s = single(vec![rule(
+        Re::cat(Re::plus(Re::range('a', 'z')), Re::cat(eol.clone(), Re::star(Re::Chr(' ')))),
+        None,
+        Action::Simple(1),
+    )]);
+    assert_eq!(lex(&s, "ab"), vec!["T1@0..2", "None"]);
+    assert_eq!(lex(&s, "ab\n  cd"), vec!["T1@0..5", "T1@5..7", "None"]);
+    // a match through `$` is preferred to the same lexeme without it, also when something nullable follows
+    let s = single(vec![
+        rule(Re::plus(Re::range('a', 'z')), None, Action::Simple(2)),
+        rule(
+            Re::cat(Re::plus(Re::range('a', 'z')), Re::cat(Re::alt(Re::Eoi, Re::Chr(';')), Re::opt(Re::Chr('!')))),
+            None,
+            Action::Simple(1),
+        ),
+    ]);
+    assert_eq!(lex(&s, "ab"), vec!["T1@0..2", "None"]);
+    assert_eq!(lex(&s, "ab;"), vec!["T1@0..3", "None"]);
+    assert_eq!(lex(&s, "ab?")[0], "T2@0..2");
+}
+
+#[test]
+fn contexts_with_repeated_eoi() {
+    // 'a' > ($) ($) = 1, 'a' = 2
+    let s = single(vec![
+        rule(Re::Chr('a'), Some(Re::cat(Re::Eoi, Re::Eoi)), Action::Simple(1)),
+        rule(Re::Chr('a'), None, Action::Simple(2)),
+    ]);
+    assert_eq!(lex(&s, "a"), vec!["T1@0..1", "None"]);
+    assert_eq!(&lex(&s, "ab")[..2], ["T2@0..1", "E@1"]);
+    // 'a' > ('\n' | $)+ 'x' = 1: at the end of the input the context cannot match (and must not loop)
+    let s = single(vec![
+        rule(Re::Chr('a'), Some(Re::cat(Re::plus(Re::alt(Re::Chr('\n'), Re::Eoi)), Re::Chr('x'))), Action::Simple(1)),
+        rule(Re::Chr('a'), None, Action::Simple(2)),
+        rule(Re::Chr('\n'), None, Action::Simple(3)),
+        rule(Re::Chr('x'), None, Action::Simple(4)),
+    ]);
+    assert_eq!(lex(&s, "a"), vec!["T2@0..1", "None"]);
+    assert_eq!(lex(&s, "a\n\nx"), vec!["T1@0..1", "T3@1..2", "T3@2..3", "T4@3..4", "None"]);
+    // eol ' '* eol: last line of a paragraph
+    let eol = Re::alt(Re::Chr('\n'), Re::Eoi);
+    let s = single(vec![
+        rule(Re::plus(Re::Set(vec![SetItem::C(' '), SetItem::C('\n')])), None, Action::Skip),
+        rule(
+            Re::plus(Re::range('a', 'z')),
+            Some(Re::cat(eol.clone(), Re::cat(Re::star(Re::Chr(' ')), eol.clone()))),
+            Action::Simple(1),
+        ),
+        rule(Re::plus(Re::range('a', 'z')), None, Action::Simple(2)),
+    ]);
+    assert_eq!(lex(&s, "ab\ncd"), vec!["T2@0..2", "T1@3..5", "None"]);
+    assert_eq!(lex(&s, "ab"), vec!["T1@0..2", "None"]);
+}
